@@ -198,6 +198,18 @@ CHECKS = {
         note="Trusted: Coq kernel + vm_compute; harness; libm pow(v, -0.5) recorded per variance; the variance threshold 1e-8 is modelled "
              "literally (the invariance theorem is about the un-thresholded value). Axioms: real-number axioms of the standard library.",
         technique="Coq proof (sum identities by induction, Cauchy-Schwarz) + bit-exact correspondence + exact-rational oracle"),
+    "C16": dict(
+        cat="proof",
+        text="Theorems (Props/C16.v, exact arithmetic): for every raster, zone labelling and zone k the generic model of do_mean returns the "
+             "arithmetic mean and the count of exactly the pixels whose zone is k and that are neither nodata/NaN nor in a zone-nodata cell; "
+             "NaN and 0 for an empty zone; the whole result is invariant under every rearrangement of the pixels. The binary64 instance "
+             "(float64 accumulators after the fix, float32/float64 store) is compared bit-for-bit with the compiled kernel per time step; "
+             "single zones of 1e6..2.6e7 pixels are held against the exact integer sum and count (the accuracy clause), rearrangements, "
+             "the accessor on numpy and dask inputs with NaN pixels are run on the implementation.",
+        ref="7 (C16)",
+        note="Trusted: Coq kernel + vm_compute; harness. The accuracy clause ('accurate to the output dtype for any pixel count') is "
+             "measured against exact rationals, not proved (no Flocq development). Axioms: real-number axioms of the standard library.",
+        technique="Coq proof (fold/permutation lemmas over exact arithmetic) + bit-exact correspondence + large-zone exact oracle"),
 }
 
 PENDING = "no check has been built for this property yet (work in progress; see DESIGN.md section 7 for the plan)"
